@@ -3,7 +3,25 @@
 import json, os
 HERE = os.path.dirname(os.path.dirname(os.path.abspath(__file__)))
 
+E1_TECH = "deterministic simulation with fault injection: the real node (all goroutines) in a synctest bubble under a seeded baton scheduler, simulated transport/disk/clock, scripted peers; oracle over the recorded history; seeded search with replay + tape minimisation"
+E1_NOTE = "Sampling, not proof. Trusted base: go1.26.8 synctest, the source-to-source instrumentation pass, the peer/world models. OutputFetcher/TxFetcher, transport, disk, clock and scheduling are simulated; everything else is the repository's code."
+
 CLAIMED = {
+ "C01": ("exploration", E1_TECH,
+         "For every explored block tree, best-chain change script (extend, reorg incl. below the start block and among undownloaded blocks, flip-flop), schedule and fault mix (duplicated / reordered / stalled peer messages, connection close / reset / bounded black-hole, dial failures, clean restarts) the node's tip and height-to-hash answers from the start block up equal the peer's best chain within 45 simulated minutes of the last change, and HandleInSync is only delivered while every block announced in fully read headers messages is held.",
+         E1_NOTE, "6 C01, App. C"),
+ "C03": ("exploration", E1_TECH,
+         "Over explored transaction sets and arrival histories (trusted/untrusted inv or body, local submission, first seen in a block, duplicates, silent peers, re-announcement after confirmation) every delivered transaction matches the independent reference filter, carries the spent outputs of the world model, is delivered as new at most once, reaches both handlers, and every relevant transaction that arrived while the node was stably in sync, was submitted locally or is in a processed block has been delivered.",
+         E1_NOTE, "6 C03"),
+ "C05": ("exploration", E1_TECH,
+         "For explored k-way and partial outpoint conflicts in all arrival orders and sources, every relevant transaction of a pair that was processed while both were unconfirmed is reported unsafe, and no transaction is reported unsafe without a conflicting transaction having reached the node (also after evictions by confirmed conflicts).",
+         E1_NOTE, "6 C05"),
+ "C06": ("exploration", E1_TECH,
+         "For explored unconfirmed sets and blocks confirming conflicting transactions (winner relevant or not, seen before or not), every previously delivered relevant loser receives a cancelled+unsafe update, the chain reaches the peer's tip, and every relevant transaction of a processed block has a notification whose merkle proof an independent verifier accepts.",
+         E1_NOTE, "6 C06"),
+ "C07": ("exploration", E1_TECH,
+         "Over explored histories the per-transaction state trajectory never has safe and unsafe together, cancelled implies unsafe, nothing says safe after unsafe/cancelled, at most one unconfirmed safe report; a non-local safe report requires a trusted sighting, the configured delay since first seen and no earlier conflicting arrival; when those hold and the node stays in sync a safe report follows within delay + 30 s.",
+         E1_NOTE, "6 C07, App. C"),
  # id: (level, technique, text, note, design_ref)
  "C09": ("exploration",
          "deterministic simulation at the storage seam: reference-model comparison of the real block repository over seeded operation sequences with both delete-missing semantics and injected per-operation disk errors; exhaustive revert-boundary sweep",
